@@ -18,7 +18,7 @@ package main
 //     GWrite id args   conn.WritePacket(pk.Marshal(id, args...))
 //     GEcho            conn.WritePacket(p)
 //     GSetThreshold a  conn.SetThreshold(a)
-// control flow keeps its structure (GIf, GSwitch, GLoop, GLoopN, GReturn, GBranch) and every other
+// control flow keeps its structure (GIf, GSwitch, GLoop, GLoopN, GFor, GReturn, GBranch) and every other
 // statement is carried as its rendered text (GOther), so that ANY edit of these bodies changes the
 // generated term.  A statement or expression node outside the shapes handled below makes the
 // translator fail (non-zero exit of gotrans), which the check reports as a broken correspondence.
@@ -444,6 +444,27 @@ func (c *gctx) stmt(s ast.Stmt, ind string) ([]string, error) {
 			if lit, ok := cond.Y.(*ast.BasicLit); ok && lit.Kind == token.INT && z == "0" && ci == i && pi == i {
 				return []string{fmt.Sprintf("GLoopN %s%%Z %s", lit.Value, gblock(body, ind))}, nil
 			}
+		}
+		// any other three-clause header: kept as text
+		if ok1 && x.Cond != nil && ok3 {
+			l, err := c.gxs(as.Lhs)
+			if err != nil {
+				return nil, err
+			}
+			r, err := c.gxs(as.Rhs)
+			if err != nil {
+				return nil, err
+			}
+			cd, err := c.gx(x.Cond)
+			if err != nil {
+				return nil, err
+			}
+			pi, err := c.gx(post.X)
+			if err != nil {
+				return nil, err
+			}
+			hdr := l + " " + as.Tok.String() + " " + r + "; " + cd + "; " + pi + post.Tok.String()
+			return []string{fmt.Sprintf("GFor %s %s", gq(hdr), gblock(body, ind))}, nil
 		}
 		return nil, c.errf(s, "unknown for-loop header")
 	case *ast.ReturnStmt:
